@@ -17,8 +17,14 @@ CONFIGS += [(600, 0, False, False, 60), (600, 0, False, True, 60), (0, 0, False,
 
 def bounds(tier):
     if tier == "quick":
-        return {"MaxActs": "2", "MaxMnt": "1", "Starts": "{0,1,2}", "Durs": "{1,2}"}
-    return {"MaxActs": "3", "MaxMnt": "1", "Starts": "{0,1,2,3}", "Durs": "{1,2}"}
+        return {"MinActs": "1", "MaxActs": "2", "MaxMnt": "1", "Starts": "{0,1,2}", "Durs": "{1,2}"}
+    return {"MinActs": "1", "MaxActs": "3", "MaxMnt": "1", "Starts": "{0,1,2,3}", "Durs": "{1,2}"}
+
+
+def bounds3(tier):
+    """Second, coarser family for the quick tier: all networks with exactly three service trips of unit
+    duration (tours and dummy tours of three nodes: gaps next to the first / last node)."""
+    return {"MinActs": "3", "MaxActs": "3", "MaxMnt": "0", "Starts": "{0,1,2}", "Durs": "{1}"}
 
 
 def spec_hash():
@@ -33,13 +39,18 @@ def spec_hash():
     return h.hexdigest()[:16]
 
 
-def run_gen(tier, out, emit=True, bnd=None):
+CONFIGS3 = [(0, 0, False, False, 600), (0, 600, False, False, 600), (600, 0, False, True, 600),
+            (0, 0, True, False, 600), (600, 0, False, False, 60), (600, 600, False, False, 600)]
+
+
+def run_gen(tier, out, emit=True, bnd=None, configs=None):
     """One TLC run per configuration, in parallel. Returns the emitted cases. The enumeration does
     not depend on /repo, so it is cached per specification version."""
-    bnd = bnd or bounds(tier)
+    bnd = dict(bnd or bounds(tier))
+    bnd.setdefault("MinActs", "1")
     cdir = os.path.join(common.WORK, "cache", "mc_" + spec_hash())
     os.makedirs(cdir, exist_ok=True)
-    key = "gen_" + "_".join("%s%s" % (k, "".join(ch for ch in str(v) if ch.isalnum())) for k, v in sorted(bnd.items()))
+    key = ("gen3_" if configs else "gen_") + "_".join("%s%s" % (k, "".join(ch for ch in str(v) if ch.isalnum())) for k, v in sorted(bnd.items()))
     cpath = os.path.join(cdir, key + ".json")
     if emit and os.path.exists(cpath):
         with open(cpath) as f:
@@ -50,7 +61,7 @@ def run_gen(tier, out, emit=True, bnd=None):
                              "wall_s": rec["wall"]})
         return rec["cases"]
     s0, g0, t0 = out.states, out.transitions, time.time()
-    cases = _run_gen(out, emit, bnd)
+    cases = _run_gen(out, emit, bnd, configs or CONFIGS)
     if emit:
         with open(cpath, "w") as f:
             json.dump({"cases": cases, "distinct": out.states - s0, "generated": out.transitions - g0,
@@ -58,7 +69,7 @@ def run_gen(tier, out, emit=True, bnd=None):
     return cases
 
 
-def _run_gen(out, emit, bnd):
+def _run_gen(out, emit, bnd, configs):
 
     def one(cfg):
         consts = dict(bnd)
@@ -68,8 +79,8 @@ def _run_gen(out, emit, bnd):
         return cfg, common.run_tlc("Gen_Tour", invariants=["Laws", "EmitCase"], constants=consts, workers=1,
                                    timeout=3000, cont=False, xmx="3g")
 
-    with ThreadPoolExecutor(max_workers=min(len(CONFIGS), max(2, common.NCPU - 2))) as ex:
-        results = list(ex.map(one, CONFIGS))
+    with ThreadPoolExecutor(max_workers=min(len(configs), max(2, common.NCPU - 2))) as ex:
+        results = list(ex.map(one, configs))
     cases = []
     for cfg, res in results:
         out.add_tlc("Gen_Tour%s" % (cfg,), res)
@@ -86,7 +97,7 @@ def _run_gen(out, emit, bnd):
     return cases
 
 
-def execute(cases, stride=1, shards=None):
+def execute(cases, stride=1, shards=None, rstride=1):
     """Run the cases on the implementation; returns per-case event lists (same order)."""
     shards = shards or max(1, min(common.NCPU - 2, (len(cases) + 49) // 50))
     workdir = os.path.join(common.WORK, "tour_%d" % os.getpid())
@@ -104,7 +115,7 @@ def execute(cases, stride=1, shards=None):
         inp = os.path.join(workdir, "in_%d.ndjson" % k)
         outp = os.path.join(workdir, "out_%d.ndjson" % k)
         common.write_ndjson(inp, parts[k])
-        rc, err = common.run_harness("tour", ["--in", inp, "--out", outp, "--stride", str(stride)], timeout=3000,
+        rc, err = common.run_harness("tour", ["--in", inp, "--out", outp, "--stride", str(stride), "--rstride", str(rstride)], timeout=3000,
                                      threads=1)
         evs = common.read_ndjson(outp)
         for p in (inp, outp):
